@@ -517,7 +517,7 @@ func (x *coreRun) teardown() {
 
 // expect waits for one of the given events of actor a.
 func (x *coreRun) expect(a *actor, key, what string, evs ...string) string {
-	e := await(a, watchdog)
+	e := awaitPatient(a, watchdog)
 	for e == "@send.enter" {
 		for _, w := range evs {
 			if w == "sendresp.registered" {
